@@ -1,5 +1,217 @@
-"""Systematic (deterministic) case catalogues."""
+"""Systematic (deterministic) case catalogues: rule-trigger templates x
+layouts (DESIGN §3 C01 'rule-trigger table')."""
+import copy
+
+# ----------------------------------------------------------------- fixed tables
+
+COLS = [["k", "int"], ["f", "float"], ["g", "float"], ["s", "str"], ["i", "int"], ["b", "bool"], ["rid", "int"]]
+ROWS_A = [
+    [1, 0.5, 3.0, "a", 0, True, 0],
+    [2, None, 1.0, "b", 1, False, 1],
+    [1, 1.5, None, None, 2, True, 2],
+    [3, -1.0, 2.5, "a", 3, False, 3],
+    [2, 2.0, -2.0, "c", 4, True, 4],
+    [0, None, 0.5, "b", 5, True, 5],
+    [3, 3.0, 4.0, "dd", 6, False, 6],
+    [1, -0.5, -1.5, "a", 7, True, 7],
+]
+ROWS_B = [
+    [1, 1.0, 0.0, "a", 10, True, 0],
+    [1, 2.5, 1.0, "c", 11, False, 1],
+    [4, None, 2.0, "b", 12, True, 2],
+    [2, 0.5, None, None, 13, False, 3],
+    [0, -2.0, 3.5, "a", 14, True, 4],
+]
+
+
+def table(name, rows, index=None, layout=None):
+    return {"name": name, "columns": copy.deepcopy(COLS), "rows": copy.deepcopy(rows), "index": index or {"kind": "range", "name": None},
+            "layout": layout or {"kind": "from_pandas", "npartitions": 3, "sort": True}}
+
+
+LAYOUTS_A = [
+    {"kind": "from_pandas", "npartitions": 1, "sort": True},
+    {"kind": "from_pandas", "npartitions": 3, "sort": True},
+    {"kind": "from_map", "cuts": [3, 0, 4, 1]},
+    {"kind": "from_map", "cuts": [2, 3, 3], "known": True},
+    {"kind": "from_delayed", "cuts": [1, 5, 2]},
+    {"kind": "divisions", "cuts": [4, 2, 2], "known": True},
+    {"kind": "concat", "cuts": [5, 3]},
+]
+INDEXES_A = [
+    {"kind": "range", "name": None},
+    {"kind": "int", "name": "idx", "values": [0, 0, 1, 2, 2, 3, 5, 5]},
+]
+
+
+def S(_sid, _op, _ins, **args):
+    return {"id": _sid, "op": _op, "in": list(_ins), "args": args}
+
+
+def P(cmp, col, val):
+    return {"col": col, "cmp": cmp, "val": val}
+
+
+# Each template: (name, steps, out)   inputs are "A" (8 rows) and "B" (5 rows)
+def _templates():
+    T = []
+
+    def add(name, steps, out=None, tags=()):
+        T.append({"name": name, "steps": steps, "out": out or steps[-1]["id"], "tags": tags})
+
+    # --- projection rules
+    add("proj-proj", [S("v1", "cols", ["A"], cols=["k", "f", "g", "rid"]), S("v2", "cols", ["v1"], cols=["g", "k"])])
+    add("proj-assign-unused", [S("v1", "assign", ["A"], items=[["z", {"a": "f", "op": "add", "c": 1}], ["y", {"const": 2}]]), S("v2", "cols", ["v1"], cols=["k", "y"])])
+    add("assign-chain-reuse", [S("v1", "assign", ["A"], items=[["z", {"a": "f", "op": "mul", "c": 2}]]), S("v2", "assign", ["v1"], items=[["w", {"a": "z", "op": "add", "b": "g"}]]), S("v3", "cols", ["v2"], cols=["w", "rid"])])
+    add("assign-overwrite", [S("v1", "assign", ["A"], items=[["f", {"a": "f", "op": "add", "c": 1}]]), S("v2", "assign", ["v1"], items=[["f", {"a": "f", "op": "mul", "c": 3}]]), S("v3", "col", ["v2"], col="f")])
+    add("rename-proj", [S("v1", "rename", ["A"], map={"f": "f_r", "k": "zz"}), S("v2", "cols", ["v1"], cols=["zz", "f_r"])])
+    add("affix-proj", [S("v1", "add_affix", ["A"], how="suffix", s="_x"), S("v2", "cols", ["v1"], cols=["g_x", "k_x"])])
+    add("drop-proj", [S("v1", "drop", ["A"], cols=["s", "b"]), S("v2", "col", ["v1"], col="g")])
+    add("astype-fillna-proj", [S("v1", "astype", ["A"], to={"i": "float64"}), S("v2", "fillna", ["v1"], value={"f": 0.0}), S("v3", "cols", ["v2"], cols=["i", "f"])])
+    add("to_frame-proj", [S("v1", "col", ["A"], col="f"), S("v2", "to_frame", ["v1"], name="tf"), S("v3", "col", ["v2"], col="tf")])
+    add("reset_index-proj", [S("v1", "reset_index", ["A"], drop=False), S("v2", "cols", ["v1"], cols=["k", "f"])])
+    add("mul-const-fold", [S("v1", "col", ["A"], col="f"), S("v2", "binop_scalar", ["v1"], op="mul", c=3, r=True), S("v3", "binop_scalar", ["v2"], op="mul", c=2, r=False)])
+    add("shared-two-consumers", [S("v1", "assign", ["A"], items=[["z", {"a": "f", "op": "add", "b": "g"}]]), S("v2", "col", ["v1"], col="z"), S("v3", "col", ["v1"], col="k"), S("v4", "binop", ["v2", "v3"], op="add")])
+    add("reduction-reuse", [S("v1", "col", ["A"], col="f"), S("v2", "series_red_reuse", ["v1"], op="sub", red="mean")])
+    add("filter-by-reduction", [S("v1", "filter_pred", ["A"], pred={"col": "f", "cmp": "gt", "red": "mean"}), S("v2", "cols", ["v1"], cols=["k", "rid"])])
+    add("reduce-sum-frame", [S("v1", "cols", ["A"], cols=["f", "g", "i"]), S("v2", "reduce", ["v1"], how="sum", split_every=2)])
+    add("reduce-of-projection", [S("v1", "assign", ["A"], items=[["z", {"a": "f", "op": "add", "c": 1}]]), S("v2", "col", ["v1"], col="g"), S("v3", "reduce", ["v2"], how="max", split_every=None)])
+    add("nunique-size", [S("v1", "col", ["A"], col="k"), S("v2", "reduce", ["v1"], how="nunique", split_every=None)])
+    add("value_counts", [S("v1", "col", ["A"], col="s"), S("v2", "value_counts", ["v1"], split_out=2)])
+    add("unique", [S("v1", "col", ["A"], col="k"), S("v2", "unique", ["v1"])])
+    add("drop_duplicates-proj", [S("v1", "cols", ["A"], cols=["k", "s", "b"]), S("v2", "drop_duplicates", ["v1"], split_out=1), S("v3", "cols", ["v2"], cols=["k"])])
+    # --- filter rules
+    add("filter-proj", [S("v1", "filter_pred", ["A"], pred=P("gt", "f", 0)), S("v2", "cols", ["v1"], cols=["k", "rid"])])
+    add("filter-filter", [S("v1", "filter_pred", ["A"], pred=P("gt", "f", -1)), S("v2", "filter_pred", ["v1"], pred=P("ne", "k", 2)), S("v3", "filter_pred", ["v2"], pred={"col": "s", "f": "notnull"})])
+    add("filter-or-factoring", [S("v1", "filter_pred", ["A"], pred={"or": [{"and": [P("gt", "f", 0), P("eq", "k", 1)]}, {"and": [P("gt", "f", 0), P("lt", "g", 2)]}]})])
+    add("filter-and-split", [S("v1", "assign", ["A"], items=[["z", {"a": "f", "op": "add", "c": 1}]]), S("v2", "filter_pred", ["v1"], pred={"and": [P("gt", "z", 0), P("le", "k", 2)]})])
+    add("filter-after-assign", [S("v1", "assign", ["A"], items=[["z", {"a": "f", "op": "mul", "c": 2}]]), S("v2", "filter_pred", ["v1"], pred=P("gt", "g", 0)), S("v3", "cols", ["v2"], cols=["z", "rid"])])
+    add("filter-after-rename", [S("v1", "rename", ["A"], map={"f": "f_r"}), S("v2", "filter_pred", ["v1"], pred=P("gt", "f_r", 0))])
+    add("filter-after-reset_index", [S("v1", "reset_index", ["A"], drop=True), S("v2", "filter_pred", ["v1"], pred=P("ge", "g", 1))])
+    add("filter-after-sort", [S("v1", "sort_values", ["A"], by=["rid"], ascending=False, na_position="last"), S("v2", "filter_pred", ["v1"], pred=P("gt", "f", 0))])
+    add("filter-after-shuffle", [S("v1", "shuffle", ["A"], on="k", npartitions=2), S("v2", "filter_pred", ["v1"], pred=P("gt", "f", 0))])
+    add("filter-after-repartition", [S("v1", "repartition", ["A"], npartitions=2), S("v2", "filter_pred", ["v1"], pred=P("gt", "f", 0))])
+    add("filter-after-set_index", [S("v1", "set_index", ["A"], col="rid", drop=True), S("v2", "filter_pred", ["v1"], pred=P("gt", "f", 0))])
+    add("filter-shared-frame", [S("v1", "assign", ["A"], items=[["z", {"a": "f", "op": "add", "c": 1}]]), S("v2", "filter_pred", ["v1"], pred=P("gt", "z", 1)), S("v3", "col", ["v1"], col="z"), S("v4", "reduce", ["v3"], how="sum", split_every=None), S("v5", "col", ["v2"], col="g"), S("v6", "binop_scalar", ["v5"], op="add", c=1, r=False)], out="v6")
+    add("filter-series-mask", [S("v1", "col", ["A"], col="f"), S("v2", "binop_scalar", ["v1"], op="gt", c=0, r=False), S("v3", "filter", ["A", "v2"]), S("v4", "cols", ["v3"], cols=["k", "f"])])
+    add("dropna-proj", [S("v1", "dropna", ["A"], subset=["f"]), S("v2", "cols", ["v1"], cols=["g", "rid"])])
+    add("isin-filter", [S("v1", "filter_pred", ["A"], pred={"col": "k", "isin": [1, 3]}), S("v2", "col", ["v1"], col="s")])
+    # --- joins
+    for how in ("inner", "left", "right", "outer"):
+        add(f"merge-{how}-proj", [S("v1", "merge", ["A", "B"], on=["k"], how=how, suffixes=None, broadcast=None, shuffle_method=None), S("v2", "cols", ["v1"], cols=["k", "f_x", "g_y"])])
+        add(f"merge-{how}-filter-left", [S("v1", "merge", ["A", "B"], on=["k"], how=how, suffixes=None, broadcast=None, shuffle_method=None), S("v2", "filter_pred", ["v1"], pred=P("gt", "i_x", 2))])
+        add(f"merge-{how}-filter-right", [S("v1", "merge", ["A", "B"], on=["k"], how=how, suffixes=None, broadcast=None, shuffle_method=None), S("v2", "filter_pred", ["v1"], pred=P("gt", "i_y", 11))])
+        add(f"merge-{how}-filter-key", [S("v1", "merge", ["A", "B"], on=["k"], how=how, suffixes=None, broadcast=None, shuffle_method=None), S("v2", "filter_pred", ["v1"], pred=P("ge", "k", 1))])
+    add("merge-both-suffixed", [S("v1", "merge", ["A", "B"], on=["k"], how="inner", suffixes=None, broadcast=None, shuffle_method=None), S("v2", "cols", ["v1"], cols=["f_x", "f_y"])])
+    add("merge-suffix-empty", [S("v1", "merge", ["A", "B"], on=["k"], how="left", suffixes=["", "_r"], broadcast=None, shuffle_method=None), S("v2", "filter_pred", ["v1"], pred=P("gt", "f", 0)), S("v3", "cols", ["v2"], cols=["f", "f_r", "k"])])
+    add("merge-broadcast", [S("v1", "merge", ["A", "B"], on=["k"], how="inner", suffixes=None, broadcast=True, shuffle_method=None), S("v2", "cols", ["v1"], cols=["k", "rid_x", "rid_y"])])
+    add("merge-tasks-two-keys", [S("v1", "merge", ["A", "B"], on=["k", "s"], how="outer", suffixes=None, broadcast=False, shuffle_method="tasks")])
+    add("merge-self", [S("v1", "cols", ["A"], cols=["k", "f", "rid"]), S("v2", "merge", ["v1", "v1"], on=["k"], how="inner", suffixes=None, broadcast=None, shuffle_method=None), S("v3", "cols", ["v2"], cols=["f_x", "rid_y"])])
+    add("merge-then-groupby", [S("v1", "merge", ["A", "B"], on=["k"], how="inner", suffixes=None, broadcast=None, shuffle_method=None), S("v2", "groupby_agg", ["v1"], by=["k"], col="f_x", how="sum", split_out=1, sort=None)])
+    add("merge-index", [S("v1", "cols", ["A"], cols=["f", "k"]), S("v2", "cols", ["A"], cols=["g", "rid"]), S("v3", "merge_index", ["v1", "v2"], how="inner"), S("v4", "cols", ["v3"], cols=["f", "rid"])])
+    add("concat0-proj", [S("v1", "concat0", ["A", "B"]), S("v2", "cols", ["v1"], cols=["k", "f"])])
+    add("concat0-filter", [S("v1", "concat0", ["A", "B"]), S("v2", "filter_pred", ["v1"], pred=P("gt", "f", 0))])
+    add("concat1", [S("v1", "cols", ["A"], cols=["f"]), S("v2", "cols", ["A"], cols=["g", "k"]), S("v3", "concat1", ["v1", "v2"]), S("v4", "cols", ["v3"], cols=["g", "f"])])
+    # --- groupby
+    for how in ("sum", "mean", "count", "size", "min", "first", "var", "nunique"):
+        add(f"groupby-{how}", [S("v1", "groupby_agg", ["A"], by=["k"], col="f", how=how, split_out=1, sort=None)])
+    add("groupby-two-keys-tune", [S("v1", "groupby_agg", ["A"], by=["k", "s"], cols=["f", "g"], how="sum", split_out=1, sort=None)])
+    add("groupby-split_out", [S("v1", "groupby_agg", ["A"], by=["k"], cols=["f", "i"], how="max", split_out=2, sort=None), S("v2", "col", ["v1"], col="i")])
+    add("groupby-agg-dict-proj", [S("v1", "groupby_agg", ["A"], by=["s"], how="sum", agg={"f": "sum", "g": "mean"}, split_out=1, sort=None), S("v2", "col", ["v1"], col="g")])
+    add("groupby-after-filter", [S("v1", "filter_pred", ["A"], pred=P("gt", "g", 0)), S("v2", "groupby_agg", ["v1"], by=["k"], col="f", how="sum", split_out=1, sort=None)])
+    add("groupby-after-shuffle", [S("v1", "shuffle", ["A"], on="k", npartitions=3), S("v2", "groupby_agg", ["v1"], by=["k"], col="g", how="count", split_out=1, sort=None)])
+    # --- sort / set_index / head
+    add("sort-head", [S("v1", "sort_values", ["A"], by=["rid"], ascending=False, na_position="last"), S("v2", "head", ["v1"], n=3, npartitions=1, how="head")])
+    add("sort-tail", [S("v1", "sort_values", ["A"], by=["i"], ascending=True, na_position="last"), S("v2", "head", ["v1"], n=2, npartitions=1, how="tail")])
+    add("sort-proj", [S("v1", "sort_values", ["A"], by=["i"], ascending=True, na_position="first"), S("v2", "cols", ["v1"], cols=["k", "f"])])
+    add("sort-na-first", [S("v1", "sort_values", ["A"], by=["f", "rid"], ascending=True, na_position="first")])
+    add("set_index-proj", [S("v1", "set_index", ["A"], col="i", drop=True), S("v2", "cols", ["v1"], cols=["f", "k"])])
+    add("set_index-head", [S("v1", "set_index", ["A"], col="rid", drop=False), S("v2", "head", ["v1"], n=3, npartitions=1, how="head")])
+    add("set_index-assign", [S("v1", "set_index", ["A"], col="rid", drop=True), S("v2", "assign", ["v1"], items=[["y", {"const": 1}], ["z", {"a": "f", "op": "sub", "red": "max"}]])])
+    add("shuffle-sum", [S("v1", "shuffle", ["A"], on="k", npartitions=2), S("v2", "col", ["v1"], col="f"), S("v3", "reduce", ["v2"], how="sum", split_every=None)])
+    add("shuffle-proj", [S("v1", "shuffle", ["A"], on="s", npartitions=None), S("v2", "cols", ["v1"], cols=["f", "rid"])])
+    add("nlargest-proj", [S("v1", "nlargest", ["A"], how="nlargest", n=3, col="i"), S("v2", "cols", ["v1"], cols=["k", "f"])])
+    add("head-elemwise", [S("v1", "cols", ["A"], cols=["f", "g"]), S("v2", "binop_scalar", ["v1"], op="add", c=1, r=False), S("v3", "head", ["v2"], n=4, npartitions=2, how="head")])
+    add("head-red-reuse", [S("v1", "col", ["A"], col="f"), S("v2", "series_red_reuse", ["v1"], op="add", red="sum"), S("v3", "head", ["v2"], n=3, npartitions=1, how="head")])
+    add("tail-elemwise", [S("v1", "col", ["A"], col="g"), S("v2", "series_red_reuse", ["v1"], op="sub", red="max"), S("v3", "head", ["v2"], n=2, npartitions=1, how="tail")])
+    add("head-head", [S("v1", "head", ["A"], n=6, npartitions=2, how="head"), S("v2", "head", ["v1"], n=5, npartitions=1, how="head")])
+    add("isin-head", [S("v1", "col", ["A"], col="k"), S("v2", "isin", ["v1"], values=[1, 2]), S("v3", "head", ["v2"], n=3, npartitions=1, how="head")])
+    add("partitions-elemwise", [S("v1", "binop_scalar", ["A[f,g]"], op="mul", c=2, r=False), S("v2", "partitions", ["v1"], sel=[1, 0])])
+    add("partitions-red-reuse", [S("v1", "col", ["A"], col="f"), S("v2", "series_red_reuse", ["v1"], op="sub", red="min"), S("v3", "partitions", ["v2"], sel=[2])])
+    add("repartition-proj", [S("v1", "repartition", ["A"], npartitions=2), S("v2", "cols", ["v1"], cols=["f"])])
+    add("map_partitions-proj", [S("v1", "map_partitions", ["A"], f="add_one_numeric"), S("v2", "cols", ["v1"], cols=["f", "k"])])
+    # --- windows
+    add("cumsum", [S("v1", "col", ["A"], col="f"), S("v2", "cum", ["v1"], f="cumsum")])
+    add("cummax-int", [S("v1", "col", ["A"], col="i"), S("v2", "cum", ["v1"], f="cummax")])
+    add("shift", [S("v1", "cols", ["A"], cols=["f", "i"]), S("v2", "shift", ["v1"], f="shift", periods=1)])
+    add("diff-proj", [S("v1", "cols", ["A"], cols=["f", "g", "i"]), S("v2", "shift", ["v1"], f="diff", periods=1), S("v3", "col", ["v2"], col="g")])
+    add("ffill", [S("v1", "cols", ["A"], cols=["f", "g"]), S("v2", "shift", ["v1"], f="ffill")])
+    # --- loc / where / misc
+    add("loc-slice-elemwise", [S("v1", "loc_slice", ["A"], lo=4, hi=None), S("v2", "cols", ["v1"], cols=["f", "g"]), S("v3", "binop_scalar", ["v2"], op="add", c=1, r=False)], tags=("loc",))
+    add("where-mask", [S("v1", "col", ["A"], col="f"), S("v2", "col", ["A"], col="b"), S("v3", "where", ["v1", "v2"], how="where", other=0)])
+    add("str-accessor", [S("v1", "col", ["A"], col="s"), S("v2", "accessor", ["v1"], acc="str", f="upper")])
+    add("index-of-filter", [S("v1", "filter_pred", ["A"], pred=P("gt", "f", 0)), S("v2", "index_of", ["v1"])])
+    add("persist-proj", [S("v1", "assign", ["A"], items=[["z", {"a": "f", "op": "add", "c": 1}]]), S("v2", "cut", ["v1"], how="persist"), S("v3", "cols", ["v2"], cols=["z", "k"]), S("v4", "filter_pred", ["v3"], pred=P("gt", "z", 1))])
+    add("delayed-partitions", [S("v1", "cut", ["A"], how="delayed"), S("v2", "binop_scalar", ["v1[f,g]"], op="add", c=1, r=False), S("v3", "partitions", ["v2"], sel=[1])])
+    add("legacy-filter", [S("v1", "cut", ["A"], how="legacy"), S("v2", "filter_pred", ["v1"], pred=P("gt", "f", 0)), S("v3", "col", ["v2"], col="g")])
+    return T
+
+
+def _expand(t, layout_a, index_a, layout_b, shuffle):
+    """instantiate a template into a program"""
+    steps = []
+    pre = []
+    for s in copy.deepcopy(t["steps"]):
+        ins = []
+        for i in s["in"]:
+            if "[" in i:  # "A[f,g]" shorthand: projection first
+                base, cols = i[:-1].split("[")
+                pid = f"p_{base}_{len(pre)}"
+                pre.append(S(pid, "cols", ["t0" if base == "A" else "t1" if base == "B" else base], cols=cols.split(",")))
+                ins.append(pid)
+            else:
+                ins.append({"A": "t0", "B": "t1"}.get(i, i))
+        s["in"] = ins
+        steps.append(s)
+    steps = _order(pre, steps)
+    tables = [table("t0", ROWS_A, index=index_a, layout=layout_a)]
+    if any("t1" in s["in"] for s in steps):
+        tables.append(table("t1", ROWS_B, layout=layout_b))
+    return {"tables": tables, "steps": steps, "out": [t["out"]], "config": {"shuffle": shuffle}, "template": t["name"]}
+
+
+def _order(pre, steps):
+    """insert helper projections right before their first use"""
+    out = []
+    pending = {p["id"]: p for p in pre}
+    defined = set()
+    for s in steps:
+        for i in s["in"]:
+            if i in pending:
+                # its own inputs must be defined already (they are tables or earlier steps)
+                out.append(pending.pop(i))
+        out.append(s)
+        defined.add(s["id"])
+    return out
 
 
 def c01_cases(tier):
-    return []
+    cases = []
+    ts = _templates()
+    lays = LAYOUTS_A if tier == "thorough" else LAYOUTS_A[1:6]
+    for ti, t in enumerate(ts):
+        for li, la in enumerate(lays):
+            idxs = INDEXES_A if (tier == "thorough" or (ti + li) % 3 == 0) else INDEXES_A[:1]
+            for ia in idxs:
+                if la.get("known") and ia["kind"] == "int":
+                    # cuts must not split runs of equal index values: [0,0,1,2,2,3,5,5]
+                    la2 = dict(la, cuts=[2, 3, 3]) if la["cuts"] != [2, 3, 3] else la
+                    if la["kind"] == "divisions":
+                        la2 = dict(la, cuts=[3, 2, 3])
+                else:
+                    la2 = la
+                lb = [{"kind": "from_pandas", "npartitions": 2, "sort": True}, {"kind": "from_map", "cuts": [2, 0, 3]}][(ti + li) % 2]
+                shuffles = ["tasks", "disk"] if tier == "thorough" else [["tasks", "disk"][(ti + li) % 2]]
+                for sh in shuffles:
+                    cases.append(_expand(t, la2, ia, lb, sh))
+    return cases
